@@ -253,6 +253,76 @@ pub fn wrap(op: &wasm_encoder::Instruction, params: &[usize], drops: usize, tail
     m.finish()
 }
 
+/// one tiny module per *numeric* operator without immediates (arithmetic, comparisons, conversions,
+/// `select`, `drop`-free): `(func (export "f") (param …) (result r) local.get … <op>)`, operand and
+/// result types found by search against the validator. For the execution suites: a slip in one
+/// row of an operator table changes what such a function computes.
+pub fn numeric_cases() -> Vec<(&'static str, Vec<u8>)> {
+    use wasm_encoder::reencode::Reencode;
+    use wasm_encoder::*;
+    let features = decode::walrus_features(false);
+    let num = [ValType::I32, ValType::I64, ValType::F32, ValType::F64];
+    let mut out = vec![];
+    for (name, tag, nimm, op) in all_ops(0) {
+        if !["mvp", "sign_extension", "saturating_float_to_int"].contains(&tag) || CONTROL.contains(&name) || nimm != 0 {
+            continue;
+        }
+        let Ok(instr) = wasm_encoder::reencode::RoundtripReencoder.instruction(op) else { continue };
+        let build = |ps: &[ValType], r: ValType| -> Vec<u8> {
+            let mut m = Module::new();
+            let mut types = TypeSection::new();
+            types.function(ps.to_vec(), [r]);
+            m.section(&types);
+            let mut funcs = FunctionSection::new();
+            funcs.function(0);
+            m.section(&funcs);
+            let mut ex = ExportSection::new();
+            ex.export("f", ExportKind::Func, 0);
+            m.section(&ex);
+            let mut code = CodeSection::new();
+            let mut f = Function::new([]);
+            for k in 0..ps.len() {
+                f.instruction(&Instruction::LocalGet(k as u32));
+            }
+            f.instruction(&instr);
+            f.instruction(&Instruction::End);
+            code.function(&f);
+            m.section(&code);
+            m.finish()
+        };
+        let mut found = None;
+        'search: for n in 1..=3usize {
+            let mut idx = vec![0usize; n];
+            loop {
+                let ps: Vec<ValType> = idx.iter().map(|i| num[*i]).collect();
+                for r in num {
+                    let w = build(&ps, r);
+                    if decode::validate(&w, features).is_ok() {
+                        found = Some(w);
+                        break 'search;
+                    }
+                }
+                let mut k = 0;
+                while k < n {
+                    idx[k] += 1;
+                    if idx[k] < 4 {
+                        break;
+                    }
+                    idx[k] = 0;
+                    k += 1;
+                }
+                if k == n {
+                    break;
+                }
+            }
+        }
+        if let Some(w) = found {
+            out.push((name, w));
+        }
+    }
+    out
+}
+
 pub struct OpCase {
     pub name: &'static str,
     pub proposal: &'static str,
